@@ -1,6 +1,7 @@
 package main
 
 import (
+	"io"
 	"crypto/rand"
 	"fmt"
 	"sort"
@@ -250,3 +251,5 @@ func issueCredential(kp *KeyPair, secret *gbig.Int, attrs []*gbig.Int, rng *Rng)
 }
 
 func useRng(rng *Rng) { rand.Reader = rng }
+
+func useReader(r io.Reader) { rand.Reader = r }
